@@ -66,7 +66,8 @@ func (t PredefinedTopics) GetTopicID(clientID, topic string) (uint16, bool) {
 // the given map (src) values take precedence.
 func (t PredefinedTopics) Merge(src PredefinedTopics) {
 	for clientID := range src {
-		if _, ok := t[clientID]; !ok {
+		// (A section of a file can be empty: its map is nil then.)
+		if t[clientID] == nil {
 			t[clientID] = src[clientID]
 			continue
 		}
